@@ -705,7 +705,8 @@ static ZixStatus
 zix_btree_replace_value(ZixBTree* const     t,
                         ZixBTreeNode* const n,
                         const unsigned      i,
-                        void** const        out)
+                        void** const        out,
+                        bool* const         from_left)
 {
   ZixBTreeNode* const lhs = zix_btree_child(n, i);
   ZixBTreeNode* const rhs = zix_btree_child(n, i + 1U);
@@ -716,16 +717,18 @@ zix_btree_replace_value(ZixBTree* const     t,
   // Stash the value for the caller before it is replaced
   *out = n->data.inode.vals[i];
 
-  n->data.inode.vals[i] =
+  *from_left =
     // Left child has more values, steal its largest
-    (lhs->n_vals > rhs->n_vals) ? zix_btree_remove_max(t, lhs)
+    (lhs->n_vals > rhs->n_vals) ? true
 
     // Right child has more values, steal its smallest
-    : (rhs->n_vals > lhs->n_vals) ? zix_btree_remove_min(t, rhs)
+    : (rhs->n_vals > lhs->n_vals) ? false
 
     // Children are balanced, use index parity as a low-bias tie breaker
-    : (i & 1U) ? zix_btree_remove_max(t, lhs)
-               : zix_btree_remove_min(t, rhs);
+    : (i & 1U);
+
+  n->data.inode.vals[i] =
+    *from_left ? zix_btree_remove_max(t, lhs) : zix_btree_remove_min(t, rhs);
 
   return ZIX_STATUS_SUCCESS;
 }
@@ -768,8 +771,14 @@ zix_btree_remove(ZixBTree* const     t,
 
     if (equal) {
       // Found in internal node
-      if (!(st = zix_btree_replace_value(t, n, i, out))) {
+      bool from_left = false;
+      if (!(st = zix_btree_replace_value(t, n, i, out, &from_left))) {
         // Replaced hole with a value from a direct child
+        if (from_left) {
+          // The iterator is at the predecessor now, move on to the successor
+          zix_btree_iter_increment(ti);
+        }
+
         --t->size;
         return st;
       }
